@@ -19,6 +19,7 @@ import (
 	"fmt"
 	"io"
 	"net"
+	"sync"
 	"sync/atomic"
 	"testing/synctest"
 	"time"
@@ -110,13 +111,164 @@ type c02Mux struct {
 	got      map[protocol.ID]chan network.Stream
 	n        atomic.Uint64
 	streams  []network.Stream
+	// adapt: every muxed stream is handed to swarm.Stream through a c02JoinStream (see there)
+	adapt   bool
+	opened  int
+	mu      sync.Mutex
+	cliJoin []*c02JoinStream // in OpenStream order
+	srvJoin []*c02JoinStream // in AcceptStream order (= OpenStream order: the SYN goes out in OpenStream)
+}
+
+// c02JoinStream sits between the muxer's stream and swarm.Stream and changes HOW the end of the stream and a
+// read error are delivered, within what io.Reader allows: go-yamux hands out the last bytes and io.EOF in two
+// Read calls; a QUIC stream (and any buffered or message-based muxed stream) returns the last bytes TOGETHER
+// WITH io.EOF. swarm.Stream, the lazy multistream conn and BasicHost's streamWrapper sit on top of
+// network.MuxedStream, not on yamux.
+//   - arm(): the harness calls it once the peer's CloseWrite has ARRIVED (bubble quiescence after the call):
+//     from then on every Read looks one chunk ahead (this cannot block any more: the muxer has either data or
+//     the end), and the Read that hands out the last byte returns (n > 0, io.EOF);
+//   - failAfter(k, err, withData): the stream breaks after k more bytes: the Read that delivers the last of
+//     them returns (n > 0, err) (withData) or (n, nil) followed by (0, err); afterwards always (0, err).
+//
+// Nothing is reordered, dropped (before a break) or duplicated by it.
+type c02JoinStream struct {
+	network.MuxedStream
+	mu       sync.Mutex // never held across a Read of the muxer's stream
+	armed    bool
+	la       []byte // looked-ahead bytes not handed out yet
+	labuf    []byte
+	laErr    error // the error that followed them
+	failLeft int64 // bytes until the break (-1: none armed)
+	failErr  error
+	failData bool
+	failed   bool
+	joined   int // Reads that returned n > 0 together with an error
+}
+
+func (s *c02JoinStream) arm() {
+	s.mu.Lock()
+	s.armed = true
+	s.mu.Unlock()
+}
+
+func (s *c02JoinStream) failAfter(k int64, err error, withData bool) {
+	s.mu.Lock()
+	s.failLeft, s.failErr, s.failData = k, err, withData
+	s.mu.Unlock()
+}
+
+func (s *c02JoinStream) Read(p []byte) (int, error) {
+	if len(p) == 0 {
+		s.mu.Lock()
+		held, err, failed := len(s.la) > 0, s.laErr, s.failed
+		if failed {
+			err = s.failErr
+		}
+		s.mu.Unlock()
+		switch {
+		case failed:
+			return 0, err
+		case held:
+			return 0, nil // bytes are waiting here although the muxer's own buffer is empty
+		case err != nil:
+			return 0, err
+		}
+		return s.MuxedStream.Read(p)
+	}
+	s.mu.Lock()
+	if s.failed {
+		err := s.failErr
+		s.mu.Unlock()
+		return 0, err
+	}
+	n := 0
+	var err error
+	switch {
+	case len(s.la) > 0:
+		n = copy(p, s.la)
+		s.la = s.la[n:]
+		if len(s.la) == 0 {
+			err = s.laErr // nil, or the error that came right behind these bytes
+		}
+	case s.laErr != nil:
+		err = s.laErr
+	}
+	armed, pending := s.armed, len(s.la) > 0 || s.laErr != nil
+	s.mu.Unlock()
+	if n == 0 && err == nil {
+		n, err = s.MuxedStream.Read(p)
+	}
+	if armed && n > 0 && err == nil && !pending {
+		if s.labuf == nil {
+			s.labuf = make([]byte, 4096)
+		}
+		m, e := s.MuxedStream.Read(s.labuf)
+		s.mu.Lock()
+		s.la, s.laErr = s.labuf[:m], e
+		s.mu.Unlock()
+		if m == 0 {
+			err = e
+		}
+	}
+	s.mu.Lock()
+	if s.failLeft >= 0 && !s.failed {
+		if int64(n) >= s.failLeft {
+			n = int(s.failLeft) // what was in flight beyond the break is lost
+			s.failed = true
+			if s.failData || n == 0 {
+				err = s.failErr
+			} else {
+				err = nil
+			}
+		} else {
+			s.failLeft -= int64(n)
+		}
+	}
+	if n > 0 && err != nil {
+		s.joined++
+	}
+	s.mu.Unlock()
+	return n, err
+}
+
+func (m *c02Mux) wrap(ms network.MuxedStream, server bool) network.MuxedStream {
+	if !m.adapt {
+		return ms
+	}
+	j := &c02JoinStream{MuxedStream: ms, failLeft: -1}
+	m.mu.Lock()
+	if server {
+		m.srvJoin = append(m.srvJoin, j)
+	} else {
+		m.cliJoin = append(m.cliJoin, j)
+	}
+	m.mu.Unlock()
+	return j
+}
+
+// join returns the adaptor under stream number k of one side (nil without adaptors / before the accept).
+func (m *c02Mux) join(k int, server bool) *c02JoinStream {
+	m.mu.Lock()
+	defer m.mu.Unlock()
+	l := m.cliJoin
+	if server {
+		l = m.srvJoin
+	}
+	if k < len(l) {
+		return l[k]
+	}
+	return nil
 }
 
 func c02Proto(k int) protocol.ID { return protocol.ID(fmt.Sprintf("/verif-c02/%d", k)) }
 
 // c02NewMux must be called inside a bubble.
 func c02NewMux(st *c02Sec, stack string, short []int) (*c02Mux, error) {
-	m := &c02Mux{got: map[protocol.ID]chan network.Stream{}}
+	return c02NewMuxOpt(st, stack, short, false)
+}
+
+func c02NewMuxOpt(st *c02Sec, stack string, short []int, adapt bool) (*c02Mux, error) {
+	m := &c02Mux{got: map[protocol.ID]chan network.Stream{}, adapt: adapt}
 	m.ca, m.cb = memconn.Pair()
 	m.ca.SetReadChunks(short...)
 	m.cb.SetReadChunks(short...)
@@ -159,7 +311,7 @@ func c02NewMux(st *c02Sec, stack string, short []int) (*c02Mux, error) {
 			if err != nil {
 				return
 			}
-			s := &c02Stream{swarm.VerifC02NewStream(ms, m.n.Add(1))}
+			s := &c02Stream{swarm.VerifC02NewStream(m.wrap(ms, true), m.n.Add(1))}
 			go m.host.newStreamHandler(s)
 		}
 	}()
@@ -181,6 +333,7 @@ func (m *c02Mux) close() {
 // accepting host dispatched it to the protocol handler, the listener's end.
 type c02Pair struct {
 	m   *c02Mux
+	k   int // number of the stream on its connection (OpenStream order)
 	pid protocol.ID
 	cli network.Stream
 	srv network.Stream
@@ -200,9 +353,10 @@ func (m *c02Mux) open(k int, neg string) (*c02Pair, error) {
 	if err != nil {
 		return nil, fmt.Errorf("OpenStream: %w", err)
 	}
-	s := &c02Stream{swarm.VerifC02NewStream(ms, m.n.Add(1))}
+	s := &c02Stream{swarm.VerifC02NewStream(m.wrap(ms, false), m.n.Add(1))}
 	m.streams = append(m.streams, s)
-	p := &c02Pair{m: m, pid: pid}
+	p := &c02Pair{m: m, pid: pid, k: m.opened}
+	m.opened++
 	switch neg {
 	case "lazy":
 		if err := s.SetProtocol(pid); err != nil {
